@@ -1019,6 +1019,40 @@ fn judge(plan: &UPlan, o: &Obs, flows_mode: bool, out: &mut Outcome) {
                 );
             }
         }
+        // C16 against the flow-table model as well as against the census: a flow that expired
+        // (or a port-53 flow that was answered) no longer counts, whatever became of its socket
+        if let Some(g) = snap.gauge {
+            let (mut must, mut may) = (0usize, 0usize);
+            for (f, (_, dst)) in flows.iter().enumerate() {
+                let errored = broken[f] || o.errors_injected.iter().any(|e| e.1 == f && e.2 <= snap.t_us);
+                if errored {
+                    may += 1;
+                    continue;
+                }
+                match flow_expected(&flow_events(o, f, *dst), dst.port() == 53, t, snap.t_us) {
+                    Some(true) => {
+                        must += 1;
+                        may += 1;
+                    }
+                    Some(false) => {}
+                    None => may += 1,
+                }
+            }
+            if g > may as f64 {
+                out.violate(
+                    "C16",
+                    format!("metrics:udp:{}:outbound_udp_sockets-above-live-flows", proto),
+                    format!("at op {} ({} us): outbound_udp_sockets = {}, at most {} flows can be alive", snap.op, snap.t_us, g, may),
+                );
+            }
+            if g < must as f64 {
+                out.violate(
+                    "C16",
+                    format!("metrics:udp:{}:outbound_udp_sockets-below-live-flows", proto),
+                    format!("at op {} ({} us): outbound_udp_sockets = {}, at least {} flows must be alive", snap.op, snap.t_us, g, must),
+                );
+            }
+        }
         if let Some(t) = snap.tcp_gauge {
             if t != 0.0 {
                 out.violate(
